@@ -57,31 +57,28 @@ impl PartialEq for P {
 }
 impl fmt::Debug for P {
     fn fmt(&self, f: &mut fmt::Formatter<'_>) -> fmt::Result {
-        // pretty-print replays register a rendering per payload (delivered chunk by chunk); default is the plain number
+        // pretty-print replays register a rendering per payload (delivered piece by piece, preceded by a marker of the mode the
+        // payload was asked for: `?` Debug, `#` alternate); default is the plain number
         let r = RENDER.with(|r| r.borrow().get(&self.0).cloned());
         match r {
-            Some(chunks) => {
-                for c in chunks.iter() {
-                    // a piece `|c|X` is handed over as a single char
-                    if let Some(rest) = c.strip_prefix("|c|") { f.write_char(rest.chars().next().unwrap_or(' '))?; } else { f.write_str(c)?; }
-                }
-                Ok(())
-            }
+            Some(chunks) => write_pieces(f, &chunks, if f.alternate() { "?#" } else { "?" }),
             None => write!(f, "P({})", self.0),
         }
     }
+}
+fn write_pieces(f: &mut fmt::Formatter<'_>, chunks: &[String], marker: &str) -> fmt::Result {
+    f.write_str(marker)?;
+    for c in chunks.iter() {
+        // a piece `|c|X` is handed over as a single char
+        if let Some(rest) = c.strip_prefix("|c|") { f.write_char(rest.chars().next().unwrap_or(' '))?; } else { f.write_str(c)?; }
+    }
+    Ok(())
 }
 impl fmt::Display for P {
     fn fmt(&self, f: &mut fmt::Formatter<'_>) -> fmt::Result {
         let r = RENDER.with(|r| r.borrow().get(&self.0).cloned());
         match r {
-            Some(chunks) => {
-                for c in chunks.iter() {
-                    // a piece `|c|X` is handed over as a single char
-                    if let Some(rest) = c.strip_prefix("|c|") { f.write_char(rest.chars().next().unwrap_or(' '))?; } else { f.write_str(c)?; }
-                }
-                Ok(())
-            }
+            Some(chunks) => write_pieces(f, &chunks, if f.alternate() { "#" } else { "" }),
             None => write!(f, "P({})", self.0),
         }
     }
